@@ -244,6 +244,10 @@ def evaluate(spec, seq, w, cfg, mode, w_b=None):
     return evals, nontriv, viols
 
 
+def _raising_filter(e, v):
+    raise RuntimeError("filter fails")
+
+
 def edit_leg(spec, seq, w, cfg):
     """
     C06 across a change of universe membership with neighbour caching ON: on a re-built world,
@@ -277,6 +281,20 @@ def edit_leg(spec, seq, w, cfg):
             w2, _ = engine_g.build(spec, seq, validate=False)
             Vertex.NEIGHBOR_CACHING = True
             uni = Universe(vertices=list(w2.v))
+            # aborted traversals first: a filter that raises, and a generator form abandoned after its
+            # first element -- neither may leave anything behind that a later traversal trips over
+            for tname, (tlist, tgen, torder) in TRAVERSALS.items():
+                for s in range(min(nv, 3)):
+                    try:
+                        tlist(uni, w2.v[s], direction_sensitive=d, unknown_handling=u, ff_via=_raising_filter)
+                    except Exception:  # noqa: BLE001
+                        pass
+                    g = tgen(uni, w2.v[s], direction_sensitive=d, unknown_handling=u)
+                    try:
+                        next(g)
+                    except Exception:  # noqa: BLE001
+                        pass
+                    del g
             for k in ks:
                 for phase in ("before", "after-removal", "after-re-adding"):
                     if phase == "after-removal":
